@@ -891,7 +891,138 @@ def scan(repo):
         fs = FileScan(rel, trees[rel], set(pk), referenced, classes, refs_by_file)
         fs.visit(trees[rel])
         sites += fs.sites
+    scan.trees = trees
     return files, pk, sites
+
+
+# ---------------------------------------------------------------------------------------------------------
+# What "the default logging level" is - tied to kmip/services/server/config.py and server.py (fail closed).
+# ---------------------------------------------------------------------------------------------------------
+STD_LEVELS = {'NOTSET': 0, 'DEBUG': 10, 'INFO': 20, 'WARNING': 30, 'ERROR': 40, 'CRITICAL': 50}
+
+
+def _logging_const(node):
+    if isinstance(node, ast.Attribute) and isinstance(node.value, ast.Name) and node.value.id == 'logging' \
+            and node.attr in STD_LEVELS:
+        return node.attr
+    return None
+
+
+def _is_settings(node):
+    return isinstance(node, ast.Attribute) and node.attr == 'settings' and isinstance(node.value, ast.Name) \
+        and node.value.id == 'self'
+
+
+def scan_levels(repo, trees):
+    """-> dict(default_name, default_value, level_table, server_sets_level (bool), config_removes_settings (bool),
+               setlevel_sites [(file, func, argument text)])"""
+    CFG_F, SRV_F = 'kmip/services/server/config.py', 'kmip/services/server/server.py'
+    cfg, srv = trees[CFG_F], trees[SRV_F]
+    # ---- config.py
+    default = None
+    removes = False
+    table = None
+    for cls in [n for n in ast.walk(cfg) if isinstance(n, ast.ClassDef) and n.name == 'KmipServerConfig']:
+        for fn in [n for n in cls.body if isinstance(n, ast.FunctionDef)]:
+            for node in ast.walk(fn):
+                if isinstance(node, ast.Assign):
+                    for t in node.targets:
+                        if isinstance(t, ast.Subscript) and _is_settings(t.value) and \
+                                isinstance(t.slice, ast.Constant) and t.slice.value == 'logging_level':
+                            if fn.name == '__init__':
+                                name = _logging_const(node.value)
+                                if name is None or default is not None:
+                                    raise ValueError('%s:%d: default logging level not understood' % (CFG_F, node.lineno))
+                                default = name
+                            elif fn.name != '_set_logging_level':
+                                raise ValueError('%s:%d: logging_level assigned in %s' % (CFG_F, node.lineno, fn.name))
+                        if _is_settings(t) and fn.name != '__init__':
+                            removes = True
+                        if isinstance(t, ast.Subscript) and _is_settings(t.value) and not isinstance(t.slice, ast.Constant) \
+                                and fn.name not in ('__init__',):
+                            # self.settings[<computed key>] = ... could overwrite the level
+                            raise ValueError('%s:%d: settings written under a computed key' % (CFG_F, node.lineno))
+                if isinstance(node, ast.Call) and isinstance(node.func, ast.Attribute) and _is_settings(node.func.value) \
+                        and node.func.attr in ('pop', 'popitem', 'clear', 'update', 'setdefault', '__delitem__'):
+                    removes = True
+                if isinstance(node, ast.Delete) and any(isinstance(t, ast.Subscript) and _is_settings(t.value) for t in node.targets):
+                    removes = True
+                if fn.name == '_set_logging_level' and isinstance(node, ast.Dict) and table is None:
+                    tb = {}
+                    for k, v in zip(node.keys, node.values):
+                        name = _logging_const(v)
+                        if not (isinstance(k, ast.Constant) and isinstance(k.value, str)) or name is None or name != k.value:
+                            raise ValueError('%s:%d: logging level table not understood' % (CFG_F, node.lineno))
+                        tb[k.value] = STD_LEVELS[name]
+                    table = tb
+    if default is None or not table:
+        raise ValueError('%s: default logging level / level table not found' % CFG_F)
+    # ---- server.py: KmipServer.__init__ must put the configured level on its logger, unconditionally, after the
+    #      configuration was loaded
+    sets = False
+    for cls in [n for n in ast.walk(srv) if isinstance(n, ast.ClassDef) and n.name == 'KmipServer']:
+        for fn in [n for n in cls.body if isinstance(n, ast.FunctionDef) and n.name == '__init__']:
+            seen_config = False
+            for st in fn.body:                      # top-level statements only: a guarded call does not count
+                txt = _unq(st)
+                if 'self._setup_configuration(' in txt:
+                    seen_config = True
+                if seen_config and isinstance(st, ast.Expr) and \
+                        txt == "self._logger.setLevel(self.config.settings.get('logging_level'))":
+                    sets = True
+    # ---- every place that changes a logger level / routing, package wide
+    sites = []
+    for rel, tree in trees.items():
+        class V(ast.NodeVisitor):
+            def __init__(v):
+                v.scope = []
+
+            def visit_ClassDef(v, n):
+                v.scope.append(n.name)
+                v.generic_visit(n)
+                v.scope.pop()
+
+            def visit_FunctionDef(v, n):
+                v.scope.append(n.name)
+                v.generic_visit(n)
+                v.scope.pop()
+
+            def visit_Call(v, n):
+                f = n.func
+                if isinstance(f, ast.Attribute) and f.attr in ('setLevel', 'basicConfig', 'disable', 'removeHandler', 'addFilter') \
+                        and (f.attr == 'setLevel' or _unq(f.value) == 'logging' or 'log' in _unq(f.value).lower()):
+                    sites.append((rel, '.'.join(v.scope) or '<module>', '%s(%s)' % (f.attr, ', '.join(_unq(a) for a in n.args))))
+                v.generic_visit(n)
+
+            def visit_Assign(v, n):
+                for t in n.targets:
+                    if isinstance(t, ast.Attribute) and t.attr in ('propagate', 'disabled', 'level'):
+                        sites.append((rel, '.'.join(v.scope) or '<module>', _unq(n)))
+                v.generic_visit(n)
+        V().visit(tree)
+    return {'default_name': default, 'default_value': STD_LEVELS[default], 'level_table': table,
+            'server_sets_level': sets, 'config_removes_settings': removes, 'setlevel_sites': sites}
+
+
+def coq_levels(lv):
+    out = ['(* GENERATED from kmip/services/server/config.py, server.py and every setLevel-like call of the package',
+           '   by translate/gen_logsites.py - do not edit *)',
+           'From Coq Require Import ZArith List String.', 'Import ListNotations.', 'Open Scope string_scope.', 'Open Scope Z_scope.', '',
+           '(* KmipServerConfig.__init__: self.settings["logging_level"] = logging.%s *)' % lv['default_name'],
+           'Definition default_level_name : string := %s.' % coq_str(lv['default_name']),
+           'Definition default_level : Z := %d.' % lv['default_value'],
+           '(* KmipServerConfig._set_logging_level: accepted names (upper-cased) *)',
+           'Definition level_table : list (string * Z) := [%s].' % '; '.join('(%s, %d)' % (coq_str(k), v) for k, v in sorted(lv['level_table'].items(), key=lambda kv: kv[1])),
+           '(* KmipServer.__init__ calls self._logger.setLevel(self.config.settings.get("logging_level")) as an unguarded',
+           '   top-level statement after _setup_configuration *)',
+           'Definition server_sets_configured_level : bool := %s.' % ('true' if lv['server_sets_level'] else 'false'),
+           '(* some method of KmipServerConfig removes or replaces entries of self.settings (pop / del / clear / update / rebinding) *)',
+           'Definition config_removes_settings : bool := %s.' % ('true' if lv['config_removes_settings'] else 'false'),
+           '(* every call / assignment that changes a logger level, filter or routing, package wide *)',
+           'Definition setlevel_sites : list (string * string * string) := [%s].' % ';\n  '.join(
+               '(%s, %s, %s)' % (coq_str(a), coq_str(b), coq_str(c)) for a, b, c in lv['setlevel_sites'])]
+    return '\n'.join(out) + '\n'
+
 
 
 def coq_str(s):
@@ -934,7 +1065,7 @@ def generate(repo):
         out.append('Definition %s : list site := [\n%s\n].' % (nm, ';\n'.join(coq_site(s) for s in mine)))
         out.append('')
     out.append('Definition log_sites : list site :=\n  %s.' % ' ++\n  '.join(names))
-    return {'LogSites.v': '\n'.join(out) + '\n'}
+    return {'LogSites.v': '\n'.join(out) + '\n', 'LogLevels.v': coq_levels(scan_levels(repo, scan.trees))}
 
 
 if __name__ == '__main__':
